@@ -104,16 +104,81 @@ def run(rep, tier, seed):
                       xmlgen.simple_model(decl=TYPES + "int k;", edges=[("id0", "id0", [("assignment", w)])])))
         pairs.append(("iteration-binder", w, xmlgen.simple_model(decl=TYPES + "void t() { for (k : int[0,3]) { %s; } }" % w),
                       xmlgen.simple_model(decl=TYPES + "int k; void t() { for (z : int[0,3]) { %s; } }" % w)))
+    # binders that shadow a visible name of a mutable variable (global, template local, template parameter)
+    for w in ("k = 1", "k++", "k += 1", "setref(k)", "setrefb(k)"):
+        for where, kw in (("global", {"decl": TYPES + "int k;"}), ("template-local", {"decl": TYPES, "tdecl": "int k;"}),
+                          ("template-parameter", {"decl": TYPES + "int gg;", "params": "int &k", "system": "P1 = P(gg);\nsystem P1;"})):
+            sel = "k : int[0,5]" if "setrefb" in w else "k : int[0,3]"
+            if "setref(" in w:
+                sel = "k : int"
+                continue
+            pairs.append(("shadowing-select-binder:" + where, w,
+                          xmlgen.simple_model(edges=[("id0", "id0", [("select", sel), ("assignment", w)])], **kw),
+                          xmlgen.simple_model(edges=[("id0", "id0", [("select", "zz : int[0,3]"), ("assignment", w)])], **kw)
+                          if "setrefb" not in w else
+                          xmlgen.simple_model(decl=TYPES + "int[0,5] k;", edges=[("id0", "id0", [("select", "zz : int[0,3]"), ("assignment", w)])])))
+        if "setref" not in w:
+            pairs.append(("shadowing-iteration-binder:global", w, xmlgen.simple_model(decl=TYPES + "int k; void t() { for (k : int[0,3]) { %s; } }" % w),
+                          xmlgen.simple_model(decl=TYPES + "int k; void t() { for (z : int[0,3]) { %s; } }" % w)))
+            pairs.append(("second-select-binder", w,
+                          xmlgen.simple_model(decl=TYPES, edges=[("id0", "id0", [("select", "j : int[0,1], k : int[0,3]"), ("assignment", w)])]),
+                          xmlgen.simple_model(decl=TYPES + "int k;", edges=[("id0", "id0", [("select", "j : int[0,1]"), ("assignment", w)])])))
+    # floating point and boolean constants: every assignment operator must be rejected on the constant; the twin is
+    # required to be accepted only for the operators the language defines on that type
+    for tname, lit, srcs in (("double", "0.5", [("const-double", "const double cd = 1.5; double vd = 1.5;", "cd", "vd"),
+                                                ("const-struct-double-field", "typedef struct { double w; int n; } SD; const SD csd = { 1.5, 2 }; SD vsd;", "csd.w", "vsd.w"),
+                                                ("const-double-array", "const double cda[2] = { 1.5, 2.5 }; double vda[2];", "cda[1]", "vda[1]")]),
+                             ("bool", "true", [("const-bool", "const bool cbo = true; bool vbo = true;", "cbo", "vbo"),
+                                               ("const-bool-array", "const bool cba[2] = { true, false }; bool vba[2];", "cba[0]", "vba[0]")])):
+        for name, decls, cl, ml in srcs:
+            for op in ("=", "+=", "-=", "*=", "/=", "|=", "&=", "^="):
+                for where in ("function", "update"):
+                    w = "%s " + op + " " + lit
+                    pairs.append((name, w + "@" + where, model(decls, w % cl, where), model(decls, w % ml, where), op == "="))
+            if tname == "double":
+                pairs.append((name, "ref-arg", model("void setd(double &r) { r = 1.0; }\n" + decls, "setd(%s)" % cl, "function"),
+                              model("void setd(double &r) { r = 1.0; }\n" + decls, "setd(%s)" % ml, "function")))
+        pairs.append(("const-%s-parameter" % tname, "=", xmlgen.simple_model(decl=TYPES + "void t(const %s p) { p = %s; }" % (tname, lit)),
+                      xmlgen.simple_model(decl=TYPES + "void t(%s p) { p = %s; }" % (tname, lit))))
+    # constants handed to reference parameters of templates through (chains of) partial instantiations that keep
+    # parameters of their own: every argument position, also the ones behind the forwarded parameters
+    gd = TYPES + "const int c = 1; int v = 1; const int K = 2;"
+    for npar, refpos in ((2, 1), (2, 0), (3, 2), (3, 1)):
+        plist = ", ".join("int &r%d" % i if i == refpos else "const int[0,3] k%d" % i for i in range(npar))
+        upd = "r%d = 1" % refpos
+        for own in (1, 2):
+            if own >= npar:
+                continue
+            own_idx = [i for i in range(npar) if i != refpos][:own]
+            if len(own_idx) < own:
+                continue
+            qpars = ", ".join("const int[0,3] id%d" % i for i in own_idx)
+            def args(lv):
+                return ", ".join(lv if i == refpos else ("id%d" % i if i in own_idx else "K") for i in range(npar))
+            def mk(lv):
+                return xmlgen.simple_model(decl=gd, params=plist, edges=[("id0", "id0", [("assignment", upd)])],
+                                           system="Q(%s) = P(%s);\nsystem Q;" % (qpars, args(lv)))
+            pairs.append(("const-scalar", "partial-instance-ref-arg:%d-params-ref-at-%d-own-%d" % (npar, refpos, own), mk("c"), mk("v")))
+    # the reference itself forwarded through a partial instantiation and bound to a constant one level up
+    def mk2(lv):
+        return xmlgen.simple_model(decl=gd, params="int &r0, const int[0,3] k1", edges=[("id0", "id0", [("assignment", "r0 = 1")])],
+                                   system="Q(int &x) = P(x, K);\nR = Q(%s);\nsystem R;" % lv)
+    pairs.append(("const-scalar", "partial-instance-forwarded-ref", mk2("c"), mk2("v")))
+    def mk3(lv):
+        return xmlgen.simple_model(decl=gd, params="const int[0,3] k0, int &r1", edges=[("id0", "id0", [("assignment", "r1 = 1")])],
+                                   system="Q(const int[0,3] a, int &x) = P(a, x);\nQ2(const int[0,3] b) = Q(b, %s);\nsystem Q2;" % lv)
+    pairs.append(("const-scalar", "partial-instance-chain-ref-arg", mk3("c"), mk3("v")))
     for q in ("forall", "exists", "sum"):
         body = "(k = 1) > 0" if q != "sum" else "(k = 1)"
         ctl = "(k + 1) > 0" if q != "sum" else "(k + 1)"
         wrap = "b = %s (k : int[0,1]) %s" if q != "sum" else "h = %s (k : int[0,1]) %s"
         pairs.append(("%s-binder" % q, "=", model("", wrap % (q, body), "update"), model("", wrap % (q, ctl), "update")))
     models = []
-    for _, _, cm, mm in pairs:
+    pairs = [p if len(p) == 5 else p + (True,) for p in pairs]
+    for _, _, cm, mm, _ in pairs:
         models += [cm, mm]
     vs = accept.verdicts(models, tag="c12")
-    for i, (src, form, cm, mm) in enumerate(pairs):
+    for i, (src, form, cm, mm, twin_must) in enumerate(pairs):
         vc, vm = vs[2 * i], vs[2 * i + 1]
         if vc["crash"] is not None or vm["crash"] is not None:
             rep.crash(vc["crash"] or vm["crash"], vc["case"] if vc["crash"] else vm["case"])
@@ -123,7 +188,7 @@ def run(rep, tier, seed):
         if vc["accepted"]:
             rep.violation("C12:const-write-accepted:%s:%s" % (src, form.split("@")[0].replace("%s", "X")),
                           "write to a constant accepted (source %s, form %s)" % (src, form), vc["case"])
-        if not vm["accepted"]:
+        if not vm["accepted"] and twin_must:
             rep.violation("C12:mutable-twin-rejected:%s:%s" % (src, form.split("@")[0].replace("%s", "X")),
                           "the same operation on a mutable object is rejected (source %s, form %s): %s" % (src, form, vm["errors"][:2]), vm["case"])
     rep.sample({"source": pairs[0][0], "form": pairs[0][1]})
